@@ -12,15 +12,18 @@ static int g_hash = 0;
 struct HC { static size_t hash(int k) { return g_hash == 0 ? (size_t)k : g_hash == 1 ? 7 : (size_t)(k & 3); } static bool equal(int a, int b) { return a == b; } };
 struct Val { int v; int canary; Val(int x = 0) : v(x), canary(0xC0FFEE) {} Val(const Val& o) : v(o.v), canary(0xC0FFEE) { vf_plain_read(&o.v); vf_plain_write(&v); } ~Val() { vf_plain_write(&v); canary = 0xDEAD; } };   // contents announced to the happens-before oracle (-hb)
 typedef tbb::concurrent_hash_map<int, Val, HC> Map;
-enum { K_INS, K_FIND, K_COUNT, K_ERASE };
-static const char* const NAMES[] = {"insert", "find", "count", "erase"};
+enum { K_INS, K_FIND, K_COUNT, K_ERASE, K_ERASEACC };
+static const char* const NAMES[] = {"insert", "find", "count", "erase", "erase(accessor to the element with value)"};
 struct MModel { std::map<long, long> m;
     bool apply(const Op& o, bool chk) { long k = o.arg >> 16, v = o.arg & 0xffff;
         switch (o.kind) {
         case K_INS: { bool fresh = !m.count(k); if (chk && (o.res != 0) != fresh) return false; if (fresh) m[k] = v; return true; }
         case K_FIND: if (!chk) return true; if (o.res < 0) return !m.count(k); return m.count(k) && m[k] == o.res;
         case K_COUNT: if (!chk) return true; return (long)m.count(k) == o.res;
-        case K_ERASE: { bool had = m.count(k); if (chk && (o.res != 0) != had) return false; m.erase(k); return true; } }
+        case K_ERASE: { bool had = m.count(k); if (chk && (o.res != 0) != had) return false; m.erase(k); return true; }
+        /* erase(accessor) removes THE ELEMENT the accessor points to (identified by the value it was inserted with, v): true iff that element is still in the
+           table; false if another thread's erase(key) unlinked it in the meantime - even if a new element with the same key has been inserted since */
+        case K_ERASEACC: { bool same = m.count(k) && m[k] == v; if (chk && (o.res != 0) != same) return false; if (same) m.erase(k); return true; } }
         return false; } };
 // Holder bookkeeping per ELEMENT (its address), not per key: erase(key) unlinks an element that another thread still holds an
 // accessor to and a later insert of the same key creates a different element - the property speaks about accessors to one element.
@@ -45,7 +48,7 @@ static void scenario() {
             case 'E': id = log.begin(K_ERASE, arg); r = map.erase(k); log.end(id, r); break;
             case 'A': { id = log.begin(K_FIND, arg); Map::accessor a; bool f = map.find(a, k); r = f ? a->second.v : -1; log.end(id, r); if (f) hold_w(k, a->second); } break;
             case 'R': { id = log.begin(K_FIND, arg); Map::const_accessor a; bool f = map.find(a, k); r = f ? a->second.v : -1; log.end(id, r); if (f) hold_r(k, a->second); } break;
-            case 'X': { Map::accessor a; int idf = log.begin(K_FIND, arg); bool f = map.find(a, k); log.end(idf, f ? a->second.v : -1); if (f) { hold_w(k, a->second); id = log.begin(K_ERASE, arg); r = map.erase(a); log.end(id, r); } } break;
+            case 'X': { Map::accessor a; int idf = log.begin(K_FIND, arg); bool f = map.find(a, k); log.end(idf, f ? a->second.v : -1); if (f) { long fv = a->second.v; hold_w(k, a->second); id = log.begin(K_ERASEACC, ((long)k << 16) | (fv & 0xffff)); r = map.erase(a); log.end(id, r); } } break;
             default: vf_fail("bad op"); } } });
     open_window_and_join(ids);
     /* liveness stays on: the sequential phase that follows must terminate too */
